@@ -5,16 +5,39 @@
 # demo (must fail), reverts, rebuilds, runs the demo again (must pass).  Prints one JSON line.
 wt=$1; n=$2; cd "$wt" || exit 9
 J=${J:-6}
-demo_build() { (cd out/$n && g++ -std=c++17 -fPIC -w -DQTLOGGER_STATIC -I"$wt/src" -I"$wt/out" -I"$wt/out/common" $(pkg-config --cflags Qt5Core) demo.cpp -o demo_v "$wt/_build/src/qtlogger/libqtlogger.a" $(pkg-config --libs Qt5Core) -lpthread) >/tmp/vm_$$.log 2>&1; }
-git checkout -q -- . ; git apply out/$n/patch.diff || { echo "{\"n\":$n,\"error\":\"patch does not apply\"}"; exit 1; }
+# MODE=static (default): demo links the static library of _build; MODE=header: header-only build against <wt>/qtlogger.h;
+# if out/<n>/run.sh exists it is used as the whole demonstration (build + run) instead.
+MODE=${MODE:-static}
+demo_build() {
+  if [ -x out/$n/run.sh ] || [ -f out/$n/demo.sh ]; then return 0; fi
+  if [ "$MODE" = script ]; then (cd "$wt" && sh out/build_demo.sh $n) >/tmp/vm_$$.log 2>&1; return $?; fi
+  if [ "$MODE" = header ]; then
+    (cd out/$n && g++ -std=c++17 -fPIC -w -pthread -I"$wt" -I"$wt/out" $(pkg-config --cflags Qt5Core) demo.cpp -o demo_v -rdynamic $(pkg-config --libs Qt5Core) -lz -lutil) >/tmp/vm_$$.log 2>&1
+  else
+    (cd out/$n && g++ -std=c++17 -fPIC -w -pthread -DQTLOGGER_STATIC -I"$wt/src" -I"$wt/out" -I"$wt/out/common" $(pkg-config --cflags Qt5Core) demo.cpp -o demo_v -rdynamic "$wt/_build/src/qtlogger/libqtlogger.a" $(pkg-config --libs Qt5Core) -lz -lutil) >/tmp/vm_$$.log 2>&1
+  fi; }
+demo_run() {
+  if [ -x out/$n/run.sh ]; then (cd "$wt" && timeout 300 out/$n/run.sh)
+  elif [ -f out/$n/demo.sh ]; then (cd "$wt" && timeout 600 sh out/$n/demo.sh "$wt")
+  elif [ "$MODE" = script ]; then (cd "$wt" && timeout 300 out/$n/demo)
+  else (cd out/$n && timeout 300 ./demo_v); fi; }
+git checkout -q -- . ; git clean -fdq src tools 2>/dev/null; git apply out/$n/patch.diff || { echo "{\"n\":$n,\"error\":\"patch does not apply\"}"; exit 1; }
 cmake --build _build -j$J >/tmp/vm_$$.b 2>&1; b1=$?
-ct=$(ctest --test-dir _build -j$J --timeout 900 2>&1 | grep -E "tests passed" | head -1)
+ctest --test-dir _build -j$J --timeout 900 >/tmp/vm_$$.ct 2>&1
+ct=$(grep -E "tests passed" /tmp/vm_$$.ct | head -1)
+failed=$(grep -E "^\s+[0-9]+ - " /tmp/vm_$$.ct | tr -s ' ' | tr '\n' ';')
+# OwnThreadHandlerTest is timing-sensitive under machine load (also on the clean tree): one retry of the failed tests
+if ! echo "$ct" | grep -q "100% tests passed"; then
+  ctest --test-dir _build --rerun-failed --timeout 900 >/tmp/vm_$$.ct2 2>&1
+  ct2=$(grep -E "tests passed" /tmp/vm_$$.ct2 | head -1)
+  if echo "$ct2" | grep -q "100% tests passed"; then ct="100% tests passed after one retry of: $failed ($ct)"; fi
+fi
 demo_build; db1=$?
-(cd out/$n && timeout 120 ./demo_v >/tmp/vm_$$.o1 2>&1); d1=$?
-git checkout -q -- .
+demo_run >/tmp/vm_$$.o1 2>&1; d1=$?
+git checkout -q -- . ; git clean -fdq src tools 2>/dev/null
 cmake --build _build -j$J >/tmp/vm_$$.b 2>&1; b2=$?
 demo_build; db2=$?
-(cd out/$n && timeout 120 ./demo_v >/tmp/vm_$$.o2 2>&1); d2=$?
+demo_run >/tmp/vm_$$.o2 2>&1; d2=$?
 rm -f out/$n/demo_v
 ok=false; [ $b1 = 0 ] && [ $b2 = 0 ] && [ $db1 = 0 ] && [ $db2 = 0 ] && [ $d1 != 0 ] && [ $d2 = 0 ] && echo "$ct" | grep -q "100% tests passed" && ok=true
 echo "{\"wt\":\"$wt\",\"n\":$n,\"ok\":$ok,\"build_with\":$b1,\"ctest_with\":\"$ct\",\"demo_with_exit\":$d1,\"demo_clean_exit\":$d2,\"demo_with_tail\":$(tail -2 /tmp/vm_$$.o1 | python3 -c 'import json,sys;print(json.dumps(sys.stdin.read()[-300:]))')}"
